@@ -401,3 +401,36 @@ func mix64(x uint64) uint64 {
 	x = (x ^ x>>27) * 0x94d049bb133111eb
 	return x ^ x>>31
 }
+
+// udpPortOwner reports whether a UDP socket bound to port belongs to this process (the relay runs
+// inside the test binary). known is false when no socket of the network namespace is bound to it.
+func udpPortOwner(port uint16) (own, known bool) {
+	mine := map[string]bool{}
+	ents, err := os.ReadDir("/proc/self/fd")
+	if err != nil {
+		return false, false
+	}
+	for _, e := range ents {
+		if l, err := os.Readlink("/proc/self/fd/" + e.Name()); err == nil && strings.HasPrefix(l, "socket:[") {
+			mine[strings.TrimSuffix(strings.TrimPrefix(l, "socket:["), "]")] = true
+		}
+	}
+	needle := fmt.Sprintf(":%04X", port)
+	for _, f := range []string{"/proc/net/udp", "/proc/net/udp6"} {
+		b, err := os.ReadFile(f)
+		if err != nil {
+			continue
+		}
+		for _, line := range strings.Split(string(b), "\n")[1:] {
+			fs := strings.Fields(line)
+			if len(fs) < 10 || !strings.HasSuffix(fs[1], needle) {
+				continue
+			}
+			known = true
+			if mine[fs[9]] {
+				own = true
+			}
+		}
+	}
+	return own, known
+}
